@@ -14,12 +14,6 @@ import (
 	"strings"
 	"sync"
 	"testing"
-
-	"google.golang.org/protobuf/proto"
-	"google.golang.org/protobuf/reflect/protodesc"
-	"google.golang.org/protobuf/reflect/protoregistry"
-	"google.golang.org/protobuf/types/descriptorpb"
-	"google.golang.org/protobuf/types/pluginpb"
 )
 
 var (
@@ -50,40 +44,11 @@ func realProtocGenGo(t *testing.T) string {
 }
 
 func runReal(t *testing.T, f *File) string {
-	bin := realProtocGenGo(t)
-	fd := Descriptor(f)
-	req := &pluginpb.CodeGeneratorRequest{FileToGenerate: []string{fd.GetName()}, Parameter: proto.String("paths=source_relative"),
-		CompilerVersion: &pluginpb.Version{Major: proto.Int32(3), Minor: proto.Int32(21), Patch: proto.Int32(12)}}
-	for _, imp := range f.Imports {
-		d, err := protoregistry.GlobalFiles.FindFileByPath(imp.Path)
-		if err != nil {
-			t.Fatalf("import %s: %v", imp.Path, err)
-		}
-		req.ProtoFile = append(req.ProtoFile, protodesc.ToFileDescriptorProto(d))
-	}
-	req.ProtoFile = append(req.ProtoFile, fd)
-	in, err := proto.Marshal(req)
+	out, err := RunPlugin(realProtocGenGo(t), f, "paths=source_relative")
 	if err != nil {
-		t.Fatal(err)
+		t.Fatalf("protoc-gen-go: %v", err)
 	}
-	cmd := exec.Command(bin)
-	cmd.Stdin = bytes.NewReader(in)
-	var out, se bytes.Buffer
-	cmd.Stdout, cmd.Stderr = &out, &se
-	if err := cmd.Run(); err != nil {
-		t.Fatalf("protoc-gen-go: %v: %s", err, se.String())
-	}
-	var resp pluginpb.CodeGeneratorResponse
-	if err := proto.Unmarshal(out.Bytes(), &resp); err != nil {
-		t.Fatal(err)
-	}
-	if resp.Error != nil {
-		t.Fatalf("protoc-gen-go: %s", resp.GetError())
-	}
-	if len(resp.File) != 1 {
-		t.Fatalf("protoc-gen-go returned %d files", len(resp.File))
-	}
-	return resp.File[0].GetContent()
+	return string(out)
 }
 
 // api extracts what generated client code can touch: exported struct fields with their types, methods with their
@@ -259,5 +224,3 @@ func TestStandInMatchesRealProtocGenGo(t *testing.T) {
 	}
 	t.Logf("compared the e2e file, the hostile names file and %d goa golden files", n)
 }
-
-var _ = descriptorpb.FieldDescriptorProto_TYPE_BOOL
